@@ -243,9 +243,10 @@ class _LikelihoodSum(LikelihoodEnergyOperator):
         if len(lst) != len(set(lst)):
             raise ValueError(f"Name collision in likelihoods detected: {lst}")
 
-        data_residuals = reduce(add, res)
+        from ..sugar import domain_union
+        data_residuals = reduce(add, res) if len(res) > 0 else None
         super(_LikelihoodSum, self).__init__(data_residuals, sqrt_data_metric_at)
-        self._domain = data_residuals.domain
+        self._domain = domain_union([oo.domain for oo in ops])
 
     @classmethod
     def unpack(cls, ops, res):
